@@ -12,6 +12,7 @@ import O2P.Model.Authz
 import O2P.Model.CookieJar
 import O2P.Model.Cookies
 import O2P.Model.Signed
+import O2P.Model.Serve
 
 open O2P O2P.Go
 
@@ -28,7 +29,7 @@ def strs (alpha : List Char) : Nat → List Str
 def toyMac (k m : Str) : Str := (k ++ '#' :: m).reverse ++ natToStr (k.length * 7 + m.length)
 def toySha (m : Str) : Str := ('h' :: m) ++ natToStr m.length
 
-def E0 : Go.Ext := ⟨toyMac, toySha, 1000000 * 1000000000, [], Ck.splitHostPortGo⟩
+def E0 : Go.Ext := ⟨toyMac, toySha, 1000000 * 1000000000, Ck.splitHostPortGo⟩
 
 def showM {α} (f : α → String) : Go.M α → String
   | .ok a => f a
@@ -94,8 +95,26 @@ def main : IO UInt32 := do
   let cdLists : List (List Str) := ([[], ["a.b"], [".a.b"], ["x.a.b", "a.b"], ["a.b", "x.a.b"], ["b"], ["a.b:80"], [""]] : List (List String)).map (·.map String.toList)
   bad := bad + (← firstDiff "GetCookieDomain" (cdHosts.flatMap fun h => cdLists.map fun d => (h, d))
     (fun p => q p.1 ++ " " ++ qs p.2)
-    (fun p => showM q (Gen.Tr.GetCookieDomain { E0 with reqHost := p.1 } p.2))
+    (fun p => showM q (Gen.Tr.GetCookieDomain E0 ⟨fun _ => [], p.1, [], [], none⟩ p.2))
     (fun p => q ((Ck.getCookieDomain p.2 p.1).getD [])))
+  -- pkg/requests/util: every combination of scope, forwarding header present / absent
+  let hdrs : List (List (Str × Str)) := [[], [("X-Forwarded-Host".toList, ['f', 'h'])], [("X-Forwarded-Proto".toList, ['f', 'p'])],
+    [("X-Forwarded-Uri".toList, ['/', 'f'])], [("X-Forwarded-Host".toList, ['f', 'h']), ("X-Forwarded-Proto".toList, ['f', 'p']), ("X-Forwarded-Uri".toList, ['/', 'f'])],
+    [("X-Forwarded-Host".toList, [])], [("X-Forwarded-Host".toList, ['h'])], [("x-forwarded-host".toList, ['f', 'h'])]]
+  let rcases : List (Bool × List (Str × Str)) := [true, false].flatMap fun rp => hdrs.map fun h => (rp, h)
+  let mkR (h : List (Str × Str)) : O2P.Req := { method := ['G'], path := ['/'], uri := ['/', 'u'], headers := h, host := ['h'], scheme := ['s'] }
+  let mkG (rp : Bool) (h : List (Str × Str)) : Go.Req := ⟨(mkR h).header, ['h'], ['s'], ['/', 'u'], some ⟨rp⟩⟩
+  let showRC : Bool × List (Str × Str) → String := fun p => "reverse-proxy=" ++ toString p.1 ++ " headers=" ++ toString (p.2.map fun kv => (String.ofList kv.1, String.ofList kv.2))
+  bad := bad + (← firstDiff "GetRequestHost" rcases showRC
+    (fun p => showM q (Gen.Tr.GetRequestHost E0 (mkG p.1 p.2))) (fun p => q (requestHost { reverseProxy := p.1 } (mkR p.2))))
+  bad := bad + (← firstDiff "GetRequestProto" rcases showRC
+    (fun p => showM q (Gen.Tr.GetRequestProto E0 (mkG p.1 p.2))) (fun p => q (requestProto { reverseProxy := p.1 } (mkR p.2))))
+  bad := bad + (← firstDiff "GetRequestURI" rcases showRC
+    (fun p => showM q (Gen.Tr.GetRequestURI E0 (mkG p.1 p.2))) (fun p => q (requestURI { reverseProxy := p.1 } (mkR p.2))))
+  bad := bad + (← firstDiff "IsForwardedRequest" rcases showRC
+    (fun p => showM bstr (Gen.Tr.IsForwardedRequest E0 (mkG p.1 p.2))) (fun p => bstr (isForwardedRequest { reverseProxy := p.1 } (mkR p.2))))
+  bad := bad + (← firstDiff "IsProxied(nil scope)" hdrs (fun h => showRC (false, h))
+    (fun h => showM bstr (Gen.Tr.IsProxied E0 ⟨(mkR h).header, ['h'], ['s'], ['/', 'u'], none⟩)) (fun _ => "false"))
   -- pkg/encryption
   let secrets : List Str := ((List.range 50).flatMap fun n => [rep 'A' n, rep 'A' n ++ ['='], rep 'A' n ++ ['=', '='], rep 'A' n ++ ['!'], rep '_' n, rep '/' n])
   bad := bad + (← firstDiff "SecretBytes" secrets q
